@@ -33,6 +33,8 @@ Check(i) ==
         ELSE PrintT(<<"VERDICT", i, FALSE, "C20_RRSetLookup", ToSet(o.suppresses)>>)
      /\ IF ~IsRec(i) \/ ToSet(o.cachehit) = ExpectedCacheHit(i) THEN TRUE
         ELSE PrintT(<<"VERDICT", i, FALSE, "C20_CacheLookup", ToSet(o.cachehit)>>)
+     /\ IF ~IsRec(i) \/ ToSet(o.cacheknown) = {j \in ExpectedCacheHit(i) : U[j].kind # "NSEC"} THEN TRUE
+        ELSE PrintT(<<"VERDICT", i, FALSE, "C20_CacheAddReportsNew", ToSet(o.cacheknown)>>)
 
 (* regression of the contract itself: Same is an equivalence, insensitive to ttl /
    created / flush bit / spelling, and kinds never collide *)
